@@ -252,7 +252,7 @@ func TestCheck(t *testing.T) {
 	c := rig.NewCheck(t, "C15", "exploration")
 	defer c.Finish()
 	c.Rule = "scripts of acquire(wait/no-wait)/release(own/stale-duplicate/never-issued) on the real guard (raw and inside a treasure), run to quiescence after each step in a synctest bubble and compared with a FIFO model; non-trivial = the script had a waiter queued behind a holder or a stale release while somebody held; distinct = distinct script JSON"
-	c.Assumptions = []string{"arrival order is pinned by running the bubble to quiescence between steps; truly simultaneous arrivals are not generated (their order is unobservable)", "ids guessed by a party that never held them (capability forgery) are not generated except 0, negatives and far-future values"}
+	c.Assumptions = []string{"arrival order is pinned by running the bubble to quiescence between steps; truly simultaneous arrivals occur only in the free-running contention phase, which judges exclusivity (at most one non-zero id outstanding), not order", "ids guessed by a party that never held them (capability forgery) are not generated except 0, negatives and far-future values"}
 	n := c.N(3000, 60000)
 	cases := fixedCases()
 	for i := 0; i < n; i++ {
@@ -261,10 +261,22 @@ func TestCheck(t *testing.T) {
 	if p := c.ReplayPath(); p != "" {
 		cases = nil
 		var w struct {
-			Witness struct{ Script script } `json:"witness"`
+			Witness struct {
+				Script script
+				Stress *stressSpec `json:"stress"`
+			} `json:"witness"`
 		}
 		rig.ReadJSON(p, &w)
+		if w.Witness.Stress != nil {
+			runStress(c, *w.Witness.Stress)
+			return
+		}
 		cases = append(cases, w.Witness.Script)
+	} else {
+		// simultaneous arrivals, which the scripts cannot produce (see stress_test.go)
+		for _, sp := range stressSpecs(c) {
+			runStress(c, sp)
+		}
 	}
 	for _, sc := range cases {
 		sig, what, interesting, trace := runScript(t, sc)
